@@ -1,17 +1,1119 @@
-//! Engine `sym` — placeholder (not written yet).
+//! Engine `sym` (C09, C10): the streaming Breakpad symbol-file parser of the repository
+//! (`SymbolFile::from_bytes`, `SymbolFile::parse(chunking reader, recording callback)`) against the
+//! Lean model `MdModel.SymParse` / `MdModel.Stream`, plus the two properties' own oracles evaluated
+//! on the implementation alone.
+//!
+//! case line:  `sym parse <input> sched:<whole | item,item,..>`
+//!             <input> = `.`-separated segments: plain hex, or `XX*N` (byte XX repeated N times); `-` = empty
+//!             item = `n` (one read of n bytes) | `n*k` (k reads of n bytes) | `n~` (n bytes for ever);
+//!             after the schedule is exhausted every read fills the space it is given.
+//! answer:     `ok <canonical SymbolFile> cb:<fnv64>:<len>:<calls>` | `err <kind> <line> cb:..` | `PANIC`
+
 use crate::common::*;
+use breakpad_symbols::fuzzing_private_exports::WinStackThing;
+use breakpad_symbols::{SymbolError, SymbolFile};
+use std::fmt::Write as _;
+use std::io::Read;
 
 pub struct Sym;
+
+/// the property text's thresholds (C10: "lines shorter than 80 KiB"; C09: "fixed-size window")
+const HALF: usize = 80 * 1024;
+const MAXCAP: usize = 160 * 1024;
+
+// ------------------------------------------------------------------------------------------- case
+
+fn parse_case(case: &str) -> Option<(Vec<u8>, String)> {
+    let f: Vec<&str> = case.split(' ').filter(|s| !s.is_empty()).collect();
+    if f.len() != 4 || f[0] != "sym" || f[1] != "parse" {
+        return None;
+    }
+    let input = decode_input(f[2])?;
+    let sched = f[3].strip_prefix("sched:")?.to_string();
+    Some((input, sched))
+}
+
+/// input encoding: `.`-separated segments, each plain hex or `XX*N` (byte XX, N times); `-` = empty
+fn decode_input(s: &str) -> Option<Vec<u8>> {
+    if s == "-" {
+        return Some(vec![]);
+    }
+    let mut out = vec![];
+    for seg in s.split('.') {
+        if let Some((x, n)) = seg.split_once('*') {
+            let b = unhex(x)?;
+            if b.len() != 1 {
+                return None;
+            }
+            let n: usize = n.parse().ok()?;
+            out.extend(std::iter::repeat(b[0]).take(n));
+        } else {
+            out.extend(unhex(seg)?);
+        }
+    }
+    Some(out)
+}
+
+fn encode_input(input: &[u8]) -> String {
+    if input.is_empty() {
+        return "-".into();
+    }
+    let mut segs: Vec<String> = vec![];
+    let mut plain = String::new();
+    let mut i = 0;
+    while i < input.len() {
+        let b = input[i];
+        let mut j = i;
+        while j < input.len() && input[j] == b {
+            j += 1;
+        }
+        if j - i >= 24 {
+            if !plain.is_empty() {
+                segs.push(std::mem::take(&mut plain));
+            }
+            segs.push(format!("{:02x}*{}", b, j - i));
+        } else {
+            for _ in i..j {
+                let _ = write!(plain, "{:02x}", b);
+            }
+        }
+        i = j;
+    }
+    if !plain.is_empty() {
+        segs.push(plain);
+    }
+    segs.join(".")
+}
+
+fn render(input: &[u8], sched: &str) -> String {
+    format!("sym parse {} sched:{}", encode_input(input), sched)
+}
+
+/// mirror of `MdModel.Sym.parseSched`
+fn expand_sched(spec: &str, input_len: usize) -> Option<Vec<usize>> {
+    if spec == "whole" {
+        return Some(vec![]);
+    }
+    let mut out = vec![];
+    for item in spec.split(',').filter(|s| !s.is_empty()) {
+        if let Some(n) = item.strip_suffix('~') {
+            let n: usize = n.parse().ok()?;
+            out.extend(std::iter::repeat(n).take(input_len + 8));
+        } else if let Some((n, k)) = item.split_once('*') {
+            let n: usize = n.parse().ok()?;
+            let k: usize = k.parse().ok()?;
+            out.extend(std::iter::repeat(n).take(k));
+        } else {
+            out.push(item.parse().ok()?);
+        }
+    }
+    Some(out)
+}
+
+/// A reader that follows the schedule: the i-th successful read returns
+/// `min(max(n_i,1), buf.len(), remaining)`; afterwards it fills the buffer it is given; it returns 0
+/// only for an empty buffer or at end of input (the contract of `Read`).
+struct ChunkReader<'a> {
+    data: &'a [u8],
+    pos: usize,
+    sched: Vec<usize>,
+    idx: usize,
+}
+impl Read for ChunkReader<'_> {
+    fn read(&mut self, buf: &mut [u8]) -> std::io::Result<usize> {
+        let remaining = self.data.len() - self.pos;
+        if buf.is_empty() || remaining == 0 {
+            return Ok(0);
+        }
+        let want = if self.idx < self.sched.len() {
+            let k = self.sched[self.idx];
+            self.idx += 1;
+            k.max(1)
+        } else {
+            usize::MAX
+        };
+        let n = want.min(buf.len()).min(remaining);
+        buf[..n].copy_from_slice(&self.data[self.pos..self.pos + n]);
+        self.pos += n;
+        Ok(n)
+    }
+}
+
+// ----------------------------------------------------------------------------------- canonical dump
+
+fn dump(f: &SymbolFile) -> String {
+    let mut s = String::new();
+    let hx = |t: &str| hex(t.as_bytes());
+    let _ = write!(s, "mod={},{};files:", hx(&f.module_id), hx(&f.debug_file));
+    let mut files: Vec<_> = f.files.iter().collect();
+    files.sort();
+    s.push_str(&files.iter().map(|(k, v)| format!("{k}={}", hx(v))).collect::<Vec<_>>().join(","));
+    s.push_str(";origins:");
+    let mut origins: Vec<_> = f.inline_origins.iter().collect();
+    origins.sort();
+    s.push_str(&origins.iter().map(|(k, v)| format!("{k}={}", hx(v))).collect::<Vec<_>>().join(","));
+    s.push_str(";pub:");
+    s.push_str(
+        &f.publics
+            .iter()
+            .map(|p| format!("{}/{}/{}", p.address, p.parameter_size, hx(&p.name)))
+            .collect::<Vec<_>>()
+            .join(","),
+    );
+    s.push_str(";func:");
+    let mut first = true;
+    for (r, func) in f.functions.ranges_values() {
+        if !first {
+            s.push(';');
+        }
+        first = false;
+        let _ = write!(
+            s,
+            "{}-{} {} {} {} {} L[",
+            r.start, r.end, func.address, func.size, func.parameter_size, hx(&func.name)
+        );
+        s.push_str(
+            &func
+                .lines
+                .ranges_values()
+                .map(|(r, l)| format!("{}-{} {} {} {} {}", r.start, r.end, l.address, l.size, l.file, l.line))
+                .collect::<Vec<_>>()
+                .join(","),
+        );
+        s.push_str("] I[");
+        s.push_str(
+            &func
+                .inlinees
+                .iter()
+                .map(|i| format!("{} {} {} {} {} {}", i.depth, i.address, i.size, i.call_file, i.call_line, i.origin_id))
+                .collect::<Vec<_>>()
+                .join(","),
+        );
+        s.push(']');
+    }
+    s.push_str(";cfi:");
+    s.push_str(
+        &f.cfi_stack_info
+            .ranges_values()
+            .map(|(r, c)| {
+                format!(
+                    "{}-{} {} {} {} A[{}]",
+                    r.start,
+                    r.end,
+                    c.init.address,
+                    c.size,
+                    hx(&c.init.rules),
+                    c.add_rules.iter().map(|a| format!("{}:{}", a.address, hx(&a.rules))).collect::<Vec<_>>().join(",")
+                )
+            })
+            .collect::<Vec<_>>()
+            .join(";"),
+    );
+    for (label, table) in [(";wfd:", &f.win_stack_framedata_info), (";wfpo:", &f.win_stack_fpo_info)] {
+        s.push_str(label);
+        s.push_str(
+            &table
+                .ranges_values()
+                .map(|(r, w)| {
+                    let t = match &w.program_string_or_base_pointer {
+                        WinStackThing::ProgramString(p) => format!("P{}", hx(p)),
+                        WinStackThing::AllocatesBasePointer(b) => (if *b { "B1" } else { "B0" }).to_string(),
+                    };
+                    format!(
+                        "{}-{} {} {} {} {} {} {} {} {} {}",
+                        r.start,
+                        r.end,
+                        w.address,
+                        w.size,
+                        w.prologue_size,
+                        w.epilogue_size,
+                        w.parameter_size,
+                        w.saved_register_size,
+                        w.local_size,
+                        w.max_stack_size,
+                        t
+                    )
+                })
+                .collect::<Vec<_>>()
+                .join(";"),
+        );
+    }
+    s.push_str(";url=");
+    match &f.url {
+        Some(u) => s.push_str(&hx(u)),
+        None => s.push_str("none"),
+    }
+    s
+}
+
+fn shorten(d: &str) -> String {
+    if d.len() <= 1500 {
+        d.to_string()
+    } else {
+        format!("#{:x}:{}", fnv64(d.as_bytes()), d.len())
+    }
+}
+
+/// outcome of one parse as the protocol prints it (without the callback part)
+#[derive(Clone, PartialEq, Debug)]
+enum Outc {
+    Ok(String),
+    Err(u32, u64),
+    Panic(String),
+}
+
+fn outcome_of(r: Result<Result<SymbolFile, SymbolError>, String>) -> Outc {
+    match r {
+        Err(p) => Outc::Panic(p),
+        Ok(Ok(f)) => match catch(|| dump(&f)) {
+            Ok(d) => Outc::Ok(d),
+            Err(p) => Outc::Panic(p),
+        },
+        Ok(Err(SymbolError::ParseError(msg, line))) => {
+            let kind = if msg.starts_with("failed to parse file") {
+                1
+            } else if msg.starts_with("MODULE line found after") {
+                2
+            } else if msg.starts_with("empty SymbolFile") {
+                3
+            } else if msg.starts_with("unexpected EOF") {
+                4
+            } else {
+                99
+            };
+            Outc::Err(kind, line)
+        }
+        Ok(Err(_)) => Outc::Err(98, 0),
+    }
+}
+
+fn show(o: &Outc) -> String {
+    match o {
+        Outc::Ok(d) => format!("ok {}", shorten(d)),
+        Outc::Err(k, l) => format!("err {k} {l}"),
+        Outc::Panic(_) => "PANIC".to_string(),
+    }
+}
+
+fn run_whole(input: &[u8]) -> Outc {
+    outcome_of(catch(|| SymbolFile::from_bytes(input)))
+}
+
+/// (outcome, concatenated callback bytes, number of callback calls)
+fn run_sched(input: &[u8], sched: Vec<usize>) -> (Outc, Vec<u8>, usize) {
+    let mut cb: Vec<u8> = Vec::new();
+    let mut calls = 0usize;
+    let r = catch(|| {
+        let reader = ChunkReader { data: input, pos: 0, sched, idx: 0 };
+        SymbolFile::parse(reader, |b: &[u8]| {
+            cb.extend_from_slice(b);
+            calls += 1;
+        })
+    });
+    (outcome_of(r), cb, calls)
+}
+
+/// lengths (without the terminator) of all lines, the unterminated tail included
+fn line_lengths(input: &[u8]) -> Vec<usize> {
+    input.split(|b| *b == b'\n').map(|l| l.len()).collect()
+}
+
+/// same table, or an error in both (C10's reading of "the same outcome")
+fn same_outcome(a: &Outc, b: &Outc) -> bool {
+    match (a, b) {
+        (Outc::Ok(x), Outc::Ok(y)) => x == y,
+        (Outc::Err(..), Outc::Err(..)) => true,
+        _ => false,
+    }
+}
+
+// -------------------------------------------------------------------------------------- generator
+
+struct Gen<'a> {
+    r: &'a mut Rng,
+    /// allow fields that make the whole file a parse error
+    poison: bool,
+    eol: u8, // 0 = \n, 1 = \r\n, 2 = mixed incl. \r\r\n
+    tabs: bool,
+}
+
+impl Gen<'_> {
+    fn sp(&mut self) -> &'static str {
+        if self.tabs {
+            *self.r.pick(&[" ", "\t", "  ", " \t "])
+        } else if self.r.chance(1, 30) {
+            "  "
+        } else {
+            " "
+        }
+    }
+    fn eol(&mut self) -> &'static str {
+        match self.eol {
+            0 => "\n",
+            1 => "\r\n",
+            _ => *self.r.pick(&["\n", "\r\n", "\r\r\n", "\n"]),
+        }
+    }
+    fn hex64(&mut self) -> String {
+        match self.r.below(16) {
+            0 => "0".into(),
+            1 => "ffffffffffffffff".into(),
+            2 => "FFFFFFFFFFFFFFF0".into(),
+            3 if self.poison => "10000000000000000".into(), // 17 digits
+            4 => format!("{:x}", self.r.below(8) * 16),
+            5 => format!("{:016x}", self.r.below(1 << 20)),
+            6 => format!("{:x}", u64::MAX - self.r.below(64)),
+            _ => format!("{:x}", self.r.below(1 << 16)),
+        }
+    }
+    fn hex32(&mut self) -> String {
+        match self.r.below(16) {
+            0 => "0".into(),
+            1 => "ffffffff".into(),
+            2 if self.poison => "100000000".into(), // 9 digits
+            3 => "1".into(),
+            4 => format!("{:08X}", self.r.below(256)),
+            _ => format!("{:x}", self.r.below(200)),
+        }
+    }
+    fn dec32(&mut self) -> String {
+        match self.r.below(16) {
+            0 => "0".into(),
+            1 => "4294967295".into(),
+            2 if self.poison => "4294967296".into(),
+            3 if self.poison => "99999999999".into(), // 11 digits
+            4 => "0000000001".into(),
+            _ => format!("{}", self.r.below(50)),
+        }
+    }
+    fn name(&mut self, out: &mut Vec<u8>) {
+        match self.r.below(20) {
+            0 => {}
+            1 => out.extend_from_slice("naïve::fn<λ> 函数 🦀".as_bytes()),
+            2 if self.poison => out.extend_from_slice(b"bad\xff\xfename"),
+            3 if self.poison => out.extend_from_slice(b"\xc0\xafoverlong"),
+            4 if self.poison => out.extend_from_slice(b"sur\xed\xa0\x80rogate"),
+            5 => out.extend_from_slice(b"\xf4\x8f\xbf\xbf max scalar \xf0\x90\x80\x80"),
+            6 if self.poison => out.extend_from_slice(b"cr\rinside"),
+            7 => out.extend_from_slice(b"std::vector<int, std::allocator<int> >::push_back(int const&)"),
+            8 => out.extend_from_slice(b" leading and trailing "),
+            _ => {
+                let n = self.r.range(1, 12);
+                for _ in 0..n {
+                    out.push(b'a' + self.r.below(26) as u8);
+                }
+            }
+        }
+    }
+    fn line(&mut self, out: &mut Vec<u8>, parts: &[&str]) {
+        for (i, p) in parts.iter().enumerate() {
+            if i > 0 {
+                let s = self.sp();
+                out.extend_from_slice(s.as_bytes());
+            }
+            out.extend_from_slice(p.as_bytes());
+        }
+    }
+    fn named(&mut self, out: &mut Vec<u8>, parts: &[&str], pad: usize) {
+        self.line(out, parts);
+        let s = self.sp();
+        out.extend_from_slice(s.as_bytes());
+        self.name(out);
+        for _ in 0..pad {
+            out.push(b'x');
+        }
+        let e = self.eol();
+        out.extend_from_slice(e.as_bytes());
+    }
+
+    /// one record (possibly several lines); `pad` lengthens its name field
+    fn record(&mut self, out: &mut Vec<u8>, pad: usize) {
+        match self.r.below(24) {
+            0 => self.named(out, &["INFO", "CODE_ID"], pad),
+            1 => self.named(out, &["INFO URL"], pad),
+            2 => self.named(out, &["INFO", "URLx"], pad),
+            3 | 4 => {
+                let id = self.dec32();
+                self.named(out, &["FILE", &id], pad)
+            }
+            5 => {
+                let id = self.dec32();
+                self.named(out, &["INLINE_ORIGIN", &id], pad)
+            }
+            6 | 7 | 8 => {
+                let (a, p) = (self.hex64(), self.hex32());
+                if self.r.chance(1, 4) {
+                    self.named(out, &["PUBLIC", "m", &a, &p], pad)
+                } else {
+                    self.named(out, &["PUBLIC", &a, &p], pad)
+                }
+            }
+            9..=13 => {
+                let (a, s, p) = (self.hex64(), self.hex32(), self.hex32());
+                if self.r.chance(1, 5) {
+                    self.named(out, &["FUNC", "m", &a, &s, &p], pad)
+                } else {
+                    self.named(out, &["FUNC", &a, &s, &p], pad)
+                }
+                let n = self.r.below(6);
+                for _ in 0..n {
+                    match self.r.below(8) {
+                        0 => {
+                            let id = self.dec32();
+                            // sub-line form needs exactly one space after the keyword
+                            out.extend_from_slice(b"INLINE_ORIGIN ");
+                            out.extend_from_slice(id.as_bytes());
+                            out.push(b' ');
+                            self.name(out);
+                            let e = self.eol();
+                            out.extend_from_slice(e.as_bytes());
+                        }
+                        1 | 2 => {
+                            let (d, cl, cf, o) = (self.dec32(), self.dec32(), self.dec32(), self.dec32());
+                            let mut parts: Vec<String> = vec!["INLINE".into(), d, cl, cf, o];
+                            for _ in 0..self.r.range(1, 3) {
+                                parts.push(self.hex64());
+                                parts.push(self.hex32());
+                            }
+                            let refs: Vec<&str> = parts.iter().map(|s| s.as_str()).collect();
+                            self.line(out, &refs);
+                            if self.poison && self.r.chance(1, 10) {
+                                out.push(b' ');
+                            }
+                            let e = self.eol();
+                            out.extend_from_slice(e.as_bytes());
+                        }
+                        3 => {
+                            let e = self.eol();
+                            out.extend_from_slice(e.as_bytes()); // blank line ends the FUNC
+                        }
+                        _ => {
+                            let (a, s, l, f) = (self.hex64(), self.hex32(), self.dec32(), self.dec32());
+                            self.line(out, &[&a, &s, &l, &f]);
+                            let e = self.eol();
+                            out.extend_from_slice(e.as_bytes());
+                        }
+                    }
+                }
+            }
+            14 | 15 | 16 => {
+                let ty = *self.r.pick(&["4", "0", "4", "0", "1", "a"]);
+                let hp = match ty {
+                    "4" => *self.r.pick(&["1", "1", "1", "0"]),
+                    "0" => *self.r.pick(&["0", "0", "0", "1"]),
+                    _ => *self.r.pick(&["0", "1", "7"]),
+                };
+                let a = self.hex64();
+                let f: Vec<String> = (0..7).map(|_| self.hex32()).collect();
+                let mut parts = vec!["STACK WIN", ty, &a];
+                parts.extend(f.iter().map(|s| s.as_str()));
+                parts.push(hp);
+                let mut tmp = Vec::new();
+                self.line(&mut tmp, &parts);
+                out.extend_from_slice(&tmp);
+                let s = self.sp();
+                out.extend_from_slice(s.as_bytes());
+                if ty == "0" && self.r.chance(1, 2) {
+                    out.extend_from_slice(if self.r.chance(1, 2) { b"1" } else { b"0" });
+                } else {
+                    out.extend_from_slice(b"$T0 .raSearch = $eip $T0 ^ = $esp $T0 4 + =");
+                    for _ in 0..pad {
+                        out.push(b'x');
+                    }
+                }
+                let e = self.eol();
+                out.extend_from_slice(e.as_bytes());
+            }
+            17..=19 => {
+                let (a, s) = (self.hex64(), self.hex32());
+                self.line(out, &["STACK CFI INIT", &a, &s, ".cfa: $esp 4 + .ra: .cfa 4 - ^"]);
+                for _ in 0..pad {
+                    out.push(b'y');
+                }
+                let e = self.eol();
+                out.extend_from_slice(e.as_bytes());
+                for _ in 0..self.r.below(4) {
+                    let a = self.hex64();
+                    self.line(out, &["STACK CFI", &a, ".cfa: $esp 8 +"]);
+                    let e = self.eol();
+                    out.extend_from_slice(e.as_bytes());
+                }
+            }
+            20 => {
+                let e = self.eol();
+                out.extend_from_slice(e.as_bytes());
+            }
+            21 if self.poison => {
+                let junk: &[&[u8]] = &[
+                    b"STACK CFI 10 orphan rule",
+                    b"INLINE 0 1 2 3 10 4",
+                    b"garbage line",
+                    b"FUNC",
+                    b"FUNC 10",
+                    b"PUBLIC zz 0 x",
+                    b"MODULE Linux x86 abc late",
+                    b"\rFILE 1 x",
+                    b"FILE 1",
+                    b"FILE  ",
+                    b"STACK WIN 4 10 10 0 0 0 0 0 0 12 x",
+                    b"STACK WIN 44 10 10 0 0 0 0 0 0 1 x",
+                    b"10 10 1",
+                    b"\0\0\0",
+                ];
+                let j = *self.r.pick(junk);
+                out.extend_from_slice(j);
+                let e = self.eol();
+                out.extend_from_slice(e.as_bytes());
+            }
+            _ => {
+                let (a, p) = (self.hex64(), self.hex32());
+                self.named(out, &["PUBLIC", &a, &p], pad)
+            }
+        }
+    }
+}
+
+struct FileOpts {
+    target: usize,
+    poison: bool,
+    /// lengths of extra-long records to sprinkle in
+    long: Vec<usize>,
+    final_newline: bool,
+}
+
+fn gen_file(r: &mut Rng, o: &FileOpts) -> Vec<u8> {
+    let eol = match r.below(6) {
+        0 => 1,
+        1 => 2,
+        _ => 0,
+    };
+    let tabs = r.chance(1, 8);
+    let mut g = Gen { r, poison: o.poison, eol, tabs };
+    let mut out = Vec::new();
+    if !g.r.chance(1, 12) {
+        let id = if g.r.chance(1, 6) { "0" } else { "D3096ED481217FD4C16B29CD9BC208BA0" };
+        let os = *g.r.pick(&["Linux", "windows", "mac", "x"]);
+        g.line(&mut out, &["MODULE", os, "x86_64", id]);
+        let s = g.sp();
+        out.extend_from_slice(s.as_bytes());
+        out.extend_from_slice(b"firefox bin");
+        let e = g.eol();
+        out.extend_from_slice(e.as_bytes());
+    }
+    let mut longs = o.long.clone();
+    // positions (in records) where the long ones go
+    while out.len() < o.target || !longs.is_empty() {
+        if !longs.is_empty() && (out.len() >= o.target || g.r.chance(1, 6)) {
+            let l = longs.remove(0);
+            g.record(&mut out, l);
+        } else {
+            g.record(&mut out, 0);
+        }
+        if out.len() > o.target + 4_000_000 {
+            break;
+        }
+    }
+    if !o.final_newline {
+        while matches!(out.last(), Some(b'\n') | Some(b'\r')) {
+            out.pop();
+        }
+        if g.r.chance(1, 3) {
+            out.extend_from_slice(b"\nPUBLIC 10 0 tail without newline");
+        }
+    }
+    out
+}
+
+fn corrupt(r: &mut Rng, data: &mut Vec<u8>) {
+    let n = r.range(1, 4);
+    for _ in 0..n {
+        if data.is_empty() {
+            data.push(b'\n');
+            continue;
+        }
+        let i = r.below(data.len() as u64) as usize;
+        match r.below(8) {
+            0 => data[i] = r.below(256) as u8,
+            1 => data[i] ^= 1 << r.below(8),
+            2 => {
+                data.remove(i);
+            }
+            3 => data.insert(i, *r.pick(&[b'\n', b'\r', b' ', b'\t', 0u8, 0xffu8, b'0'])),
+            4 => data[i] = b'\n',
+            5 => data[i] = b'\r',
+            6 => data.truncate(i),
+            _ => data[i] = b' ',
+        }
+    }
+}
+
+/// Upper estimate of the model's work: (number of reads) × (window size)
+fn cost(input: &[u8], sched: &str) -> u64 {
+    let lens = line_lengths(input);
+    let maxline = lens.iter().copied().max().unwrap_or(0).min(MAXCAP) as u64;
+    let len = input.len() as u64;
+    let min_chunk: u64 = if sched == "whole" {
+        5000
+    } else {
+        sched
+            .split(',')
+            .filter_map(|it| it.trim_end_matches('~').split('*').next().and_then(|n| n.parse::<u64>().ok()))
+            .min()
+            .unwrap_or(5000)
+            .clamp(1, 5000)
+    };
+    let reads = len / min_chunk + 20;
+    reads * (maxline + min_chunk + 64)
+}
+
+fn random_sched(r: &mut Rng, len: usize) -> String {
+    const T: [u64; 5] = [10240, 20480, 40960, 81920, 163840];
+    match r.below(12) {
+        0 => "whole".into(),
+        1 => format!("{}~", r.range(1, 9)),
+        2 => format!("{}~", r.range(10, 600)),
+        3 => format!("{}~", r.range(600, 12000)),
+        4 => {
+            // around a threshold
+            let t = *r.pick(&T);
+            format!("{}~", (t + r.below(7)).saturating_sub(3).max(1))
+        }
+        5 => {
+            let t = *r.pick(&T) / 2;
+            format!("{}~", (t + r.below(7)).saturating_sub(3).max(1))
+        }
+        6 | 7 => {
+            // random list then a constant
+            let n = r.range(1, 12);
+            let mut items: Vec<String> = (0..n)
+                .map(|_| match r.below(4) {
+                    0 => format!("{}", r.range(1, 16)),
+                    1 => format!("{}", r.range(1, 3000)),
+                    2 => format!("{}", *r.pick(&T) - 2 + r.below(5)),
+                    _ => format!("{}*{}", r.range(1, 2000), r.range(1, 20)),
+                })
+                .collect();
+            items.push(match r.below(3) {
+                0 => "whole".into(),
+                1 => format!("{}~", r.range(1, 64)),
+                _ => format!("{}~", r.range(64, 20000)),
+            });
+            if items.last().map(|s| s == "whole").unwrap_or(false) {
+                items.pop();
+            }
+            if items.is_empty() {
+                "whole".into()
+            } else {
+                items.join(",")
+            }
+        }
+        8 => {
+            // a split at a random offset, then everything
+            format!("{}", r.range(1, len.max(1) as u64))
+        }
+        9 => {
+            // a few bytes at a time around a random offset (small files: exact position)
+            let off = r.range(1, len.max(1) as u64);
+            format!("{},1*{}", off, r.range(1, 8))
+        }
+        10 => format!("{},{}~", r.range(1, 10240), *r.pick(&[1u64, 2, 3, 5, 10240, 5120])),
+        _ => format!("{}*{},{}~", r.range(1, 50), r.range(1, 200), r.range(1000, 11000)),
+    }
+}
+
+const SMALL_FILES: &[&[u8]] = &[
+    b"MODULE Linux x86 D3096ED481217FD4C16B29CD9BC208BA0 firefox-bin\nINFO blah\nFILE 0 foo.c\nFUNC 1000 30 10 some func\n1000 10 42 0\nINLINE 0 3 0 1 1000 8 1010 4\nINLINE_ORIGIN 1 inl\nPUBLIC m 2000 4 pub name\n",
+    b"MODULE windows x86 abc f.pdb\r\nSTACK WIN 4 900 30 a 9 b 7 c 5 1 prog string\r\nSTACK WIN 0 1000 30 a1 91 b1 71 c1 51 0 1\r\nSTACK WIN 4 910 20 a 9 b 7 c 5 1 $T0\r\n",
+    b"MODULE Linux x86 abc f\nSTACK CFI INIT f00 f0 init rules\nSTACK CFI f00 some rules\nSTACK CFI f04 more\nSTACK CFI INIT 2000 10 a\nFUNC 10 10 0 f\n10 4 1 1\n\n14 4 2 1\n",
+    b"MODULE a\nb c d e\n",
+    b"MODULE a b c d\nFILE 1 a\rb\n",
+    b"MODULE a b c d\r\r\nFILE 1 a\r\r\n\r\n\nPUBLIC 1 0 x\r\n",
+    b"FUNC 1 1 0 f\nINLINE_ORIGIN\t7 tabbed origin\nINLINE 0 1 1 7 1 1  \n",
+    b"FUNC 1 1 0 f\nINLINE 0 1 1 7 1 1 2 1 zz\nPUBLIC 5 0 p\n",
+    b"FUNC ffffffffffffffff 1 0 top\nffffffffffffffff 1 1 1\nffffffffffffffff 2 1 1\nFUNC fffffffffffffff0 10 0 top2\nFUNC fffffffffffffff0 11 0 ovf\nPUBLIC ffffffffffffffff ffffffff p\n",
+    b"FILE 4294967295 max\nFILE 4294967296 toolarge\n",
+    b"FILE 1 a\nFILE 1 b\nFILE 0 c\nINLINE_ORIGIN 0 x\nINLINE_ORIGIN 0 y\nPUBLIC 10 0 b\nPUBLIC 10 0 a\nPUBLIC 10 1 a\nPUBLIC 9 0 z\n",
+    b"PUBLIC 10000000000000000 0 seventeen digits\n",
+    b"PUBLIC 10 100000000 nine digits\n",
+    b"INFO URL http://example.com/sym\nINFO URLx not a url\nINFO\nINFO \n",
+    b"FUNC 10 20 0 a\n10 10 1 1\n18 10 2 1\n10 10 1 1\n30 0 3 1\nFUNC 10 20 0 a\nFUNC 18 20 0 b\nFUNC 40 8 0 c\nFUNC 40 8 0 c\n",
+    b"STACK WIN 4 0 a 0 0 0 0 0 0 1 x\nSTACK WIN 4 1 9 0 0 0 0 0 0 1 y\nSTACK WIN 4 4 6 0 0 0 0 0 0 1 z\nSTACK WIN 4 4 6 0 0 0 0 0 0 1 z\nSTACK WIN 4 2 100 0 0 0 0 0 0 1 w\nSTACK WIN 4 10 0 0 0 0 0 0 0 1 empty\nSTACK WIN 4 5 5 0 0 0 0 0 0 0 inconsistent\n",
+    b"STACK CFI 10 orphan\n",
+    b"INLINE 0 1 2 3 10 4\n",
+    b"\n\n\r\n",
+    b"no newline at all",
+    b"FILE 1 x\nFILE 2",
+    b"FUNC 1 1 0 \xff\n",
+    b"FUNC 1 1 0 f\n1 1 1 1\nFUNC 2 1 0 \xc3\n",
+    b"STACK CFI INIT 10 10 r\nSTACK CFI 11 z\nSTACK CFI 11 a\nSTACK CFI 10 zz\nSTACK CFI INIT 10 10 r\nSTACK CFI INIT 18 10 s\nSTACK CFI INIT 0 0 zero\n",
+];
+
+// ----------------------------------------------------------------------------------------- engine
 
 impl Engine for Sym {
     fn name(&self) -> &'static str {
         "sym"
     }
     fn rule(&self) -> String {
-        "not implemented".into()
+        "cases = (symbol-file bytes, reader chunk schedule): directed small files x EVERY single split point and 1/2/3-byte trickle; grammar-generated files with every record kind (numeric fields at 0/max/one digit too many, non-UTF-8 names, CR/LF variants, tabs, missing final newline), byte corruption, long lines around 10/20/40/80/160 KiB (thorough: up to 1 MiB) under random / threshold-straddling schedules. Compared with the Lean model: canonical SymbolFile dump (or its fnv64), error kind+line, callback bytes (fnv64, length, number of calls). Non-trivial: at least 3 lines and the parser got past line 0.".into()
     }
-    fn generate(&self, _tier: Tier, _rng: &mut Rng, _emit: &mut dyn FnMut(String)) {}
-    fn exec(&self, _case: &str) -> ImplResult {
-        ImplResult::default()
+    fn exhaustive_part(&self) -> Option<String> {
+        Some("every single split point (first read of k bytes, k = 1..len-1) of each directed small file (<= 300 B)".into())
+    }
+
+    fn generate(&self, tier: Tier, rng: &mut Rng, emit: &mut dyn FnMut(String)) {
+        let thorough = tier == Tier::Thorough;
+        let budget: u64 = if thorough { 400_000_000 } else { 40_000_000 };
+        let emit_checked = |input: &[u8], sched: &str, emit: &mut dyn FnMut(String)| {
+            if cost(input, sched) <= budget {
+                emit(render(input, sched));
+            } else {
+                // fall back to a schedule that is always affordable
+                emit(render(input, "whole"));
+            }
+        };
+        // (A) directed small files: every split point, trickles
+        let mut smalls: Vec<Vec<u8>> = SMALL_FILES.iter().map(|s| s.to_vec()).collect();
+        for i in 0..(if thorough { 120 } else { 40 }) {
+            let o = FileOpts { target: rng.range(20, 260) as usize, poison: i % 3 == 0, long: vec![], final_newline: i % 5 != 0 };
+            let mut f = gen_file(rng, &o);
+            if i % 4 == 0 {
+                corrupt(rng, &mut f);
+            }
+            smalls.push(f);
+        }
+        for f in &smalls {
+            emit(render(f, "whole"));
+            for t in ["1~", "2~", "3~"] {
+                emit(render(f, t));
+            }
+            if f.len() <= 300 || thorough {
+                for k in 1..f.len() {
+                    emit(render(f, &format!("{k}")));
+                }
+            }
+        }
+        // (B) grammar-generated medium files under random schedules
+        let n_b = if thorough { 4000 } else { 700 };
+        for i in 0..n_b {
+            let target = match rng.below(10) {
+                0..=4 => rng.range(100, 3000),
+                5..=7 => rng.range(3000, 30000),
+                8 => rng.range(30000, 120000),
+                _ => rng.range(9000, 12000),
+            } as usize;
+            let o = FileOpts { target, poison: i % 4 == 0, long: vec![], final_newline: !rng.chance(1, 8) };
+            let mut f = gen_file(rng, &o);
+            if i % 5 == 0 {
+                corrupt(rng, &mut f);
+            }
+            emit_checked(&f, "whole", emit);
+            for _ in 0..2 {
+                let s = random_sched(rng, f.len());
+                emit_checked(&f, &s, emit);
+            }
+        }
+        // (D) several 30-79 KiB lines (the capacity grows to 160 KiB, how far depends on where the
+        //     lines sit in the window) followed by an UNTERMINATED tail: the end-of-input test must
+        //     not depend on the chunking (F19)
+        let n_d = if thorough { 300 } else { 60 };
+        for _ in 0..n_d {
+            let mut f: Vec<u8> = Vec::new();
+            if rng.chance(1, 2) {
+                f.extend_from_slice(b"MODULE Linux x86_64 D3096ED481217FD4C16B29CD9BC208BA0 firefox-bin\n");
+            }
+            let nl = rng.range(1, 5);
+            for i in 0..nl {
+                let l = rng.range(30_000, 79_900) as usize;
+                if !thorough && f.len() + l > 195_000 {
+                    break;
+                }
+                f.extend_from_slice(format!("PUBLIC {:x} 0 ", 0x1000 + i * 16).as_bytes());
+                f.extend(std::iter::repeat(b'n').take(l));
+                f.push(b'\n');
+                for _ in 0..rng.below(3) {
+                    f.extend_from_slice(format!("FILE {} short.c\n", rng.below(9)).as_bytes());
+                }
+            }
+            match rng.below(6) {
+                0 => {}
+                1 | 4 | 5 => f.extend_from_slice(b"PUBLIC 99 0 tail-without-newline"),
+                2 => f.extend_from_slice(b"FILE 3 t"),
+                _ => f.extend_from_slice(b"garbage tail"),
+            }
+            emit_checked(&f, "whole", emit);
+            for s in ["5000~", "10240~", "1000~", "163840~", "7000~"] {
+                emit_checked(&f, s, emit);
+            }
+            let s = random_sched(rng, f.len());
+            emit_checked(&f, &s, emit);
+        }
+        // (C) long lines around the buffer thresholds
+        let n_c = if thorough { 500 } else { 70 };
+        let cap_total: usize = if thorough { 2_200_000 } else { 200 * 1024 };
+        for i in 0..n_c {
+            let mut long = vec![];
+            let mut total = 0usize;
+            for _ in 0..rng.range(1, 3) {
+                let t = *rng.pick(&[10240usize, 20480, 40960, 81920, 81920, 163840]);
+                let l = match rng.below(8) {
+                    0 => t.saturating_sub(rng.range(0, 80) as usize),
+                    1 => t + rng.range(0, 80) as usize,
+                    2 => t / 2 + rng.range(0, 2000) as usize,
+                    3 => rng.range(60000, 81900) as usize,
+                    4 => rng.range(5000, 60000) as usize,
+                    5 if thorough => rng.range(200_000, 1_048_576) as usize,
+                    6 => MAXCAP + rng.range(1, 5000) as usize,
+                    _ => t.saturating_sub(rng.range(60, 400) as usize),
+                };
+                if total + l + 2000 > cap_total {
+                    continue;
+                }
+                total += l;
+                long.push(l);
+            }
+            let target = rng.range(200, (cap_total - total).min(30000) as u64) as usize;
+            let o = FileOpts { target, poison: i % 7 == 0, long, final_newline: !rng.chance(1, 6) };
+            let f = gen_file(rng, &o);
+            emit_checked(&f, "whole", emit);
+            for _ in 0..3 {
+                let s = random_sched(rng, f.len());
+                emit_checked(&f, &s, emit);
+            }
+        }
+    }
+
+    fn exec(&self, case: &str) -> ImplResult {
+        let mut res = ImplResult::default();
+        let Some((input, spec)) = parse_case(case) else {
+            res.out = "bad-case".into();
+            return res;
+        };
+        let Some(sched) = expand_sched(&spec, input.len()) else {
+            res.out = "bad-case".into();
+            return res;
+        };
+        let whole = run_whole(&input);
+        let (streamed, cb, calls) = run_sched(&input, sched);
+        res.out = match &streamed {
+            Outc::Panic(_) => "PANIC".to_string(),
+            o => format!("{} cb:{:x}:{}:{}", show(o), fnv64(&cb), cb.len(), calls),
+        };
+
+        // ---- the properties' own oracles, on the implementation alone.  The engine serves C09 and
+        // C10; `./check` names the property under check in VERIF_PROP (unset: both).
+        let prop = std::env::var("VERIF_PROP").unwrap_or_default();
+        let (c09, c10) = (prop != "C10", prop != "C09");
+        // C09: never panics (C10: a panic is neither a table nor an error)
+        for (what, o) in [("from_bytes", &whole), ("parse(chunked)", &streamed)] {
+            if let Outc::Panic(p) = o {
+                res.oracle.push(("panic".into(), format!("{what} panicked: {p}")));
+            }
+        }
+        // C10: callback bytes are a prefix of the input, and all of it on Ok
+        if !c10 {
+        } else if !input.starts_with(&cb) {
+            let at = cb.iter().zip(input.iter()).position(|(a, b)| a != b).unwrap_or(input.len().min(cb.len()));
+            res.oracle.push((
+                "callback-not-prefix".into(),
+                format!("callback bytes ({}) differ from the input ({}) at offset {at}", cb.len(), input.len()),
+            ));
+        } else if matches!(streamed, Outc::Ok(_)) && cb.len() != input.len() {
+            res.oracle.push((
+                "callback-incomplete-on-ok".into(),
+                format!("parse returned Ok but the callback saw {} of {} bytes", cb.len(), input.len()),
+            ));
+        }
+        let lens = line_lengths(&input);
+        let maxline = lens.iter().copied().max().unwrap_or(0);
+        // C10: lines shorter than 80 KiB => the chunking does not matter
+        if c10 && maxline < HALF && !same_outcome(&whole, &streamed) {
+            res.oracle.push((
+                "chunk-dependent".into(),
+                format!("longest line {maxline} B; from_bytes: {} ; chunked ({spec}): {}", show(&whole), show(&streamed)),
+            ));
+        }
+        // C09: an over-long line is dropped as corrupt: the file parses like the file without it.
+        // (asserted when the other lines are short, so that nothing else depends on the window)
+        let n_long = lens.iter().filter(|l| **l > MAXCAP).count();
+        if c09 && n_long > 0 && lens.iter().all(|l| *l > MAXCAP || *l < HALF) {
+            let mut without: Vec<u8> = Vec::with_capacity(input.len());
+            let mut first_long: Option<usize> = None;
+            let pieces: Vec<&[u8]> = input.split(|b| *b == b'\n').collect();
+            let last = pieces.len() - 1;
+            for (i, l) in pieces.iter().enumerate() {
+                if l.len() > MAXCAP {
+                    first_long.get_or_insert(i);
+                    continue;
+                }
+                without.extend_from_slice(l);
+                if i != last {
+                    without.push(b'\n');
+                }
+            }
+            let reference = run_whole(&without);
+            // nothing but over-long lines: "empty file" has no counterpart to compare with
+            let ok = without.is_empty() || match (&reference, &whole, &streamed) {
+                (Outc::Ok(a), Outc::Ok(b), Outc::Ok(c)) => a == b && a == c,
+                // the shorter file is rejected: so is the long one (line numbers shift by the
+                // dropped lines, and "empty file" becomes "unexpected EOF")
+                (Outc::Err(..), Outc::Err(..), Outc::Err(..)) => true,
+                _ => false,
+            };
+            if !ok {
+                let class = if matches!(reference, Outc::Ok(_))
+                    && first_long.is_some()
+                    && pieces.iter().rposition(|l| l.len() > MAXCAP) == Some(last - 1)
+                    && pieces[last].is_empty()
+                {
+                    // the over-long line is the LAST line of the file and is newline-terminated
+                    "long-last-line-fails-parse"
+                } else {
+                    "long-line-not-dropped"
+                };
+                res.oracle.push((
+                    class.into(),
+                    format!(
+                        "{n_long} line(s) longer than 160 KiB; without them: {} ; from_bytes: {} ; chunked ({spec}): {}",
+                        show(&reference),
+                        show(&whole),
+                        show(&streamed)
+                    ),
+                ));
+            }
+        }
+
+        // ---- distribution
+        let nlines = lens.len();
+        res.nontrivial = nlines >= 3
+            && match &streamed {
+                Outc::Ok(_) => true,
+                Outc::Err(_, l) => *l >= 1,
+                Outc::Panic(_) => true,
+            };
+        res.tags.push(
+            match input.len() {
+                0..=300 => "size:<=300",
+                301..=10240 => "size:<=10K",
+                10241..=102400 => "size:<=100K",
+                102401..=204800 => "size:<=200K",
+                _ => "size:>200K",
+            }
+            .into(),
+        );
+        res.tags.push(
+            match maxline {
+                0..=1000 => "maxline:<=1K",
+                1001..=10240 => "maxline:<=10K",
+                10241..=40960 => "maxline:<=40K",
+                40961..=81919 => "maxline:<80K",
+                81920..=163840 => "maxline:80K..160K",
+                _ => "maxline:>160K",
+            }
+            .into(),
+        );
+        res.tags.push(match &streamed {
+            Outc::Ok(_) => "out:ok".into(),
+            Outc::Err(k, _) => format!("out:err{k}"),
+            Outc::Panic(_) => "out:panic".into(),
+        });
+        res.tags.push(
+            if spec == "whole" {
+                "sched:whole"
+            } else if !spec.contains(',') && !spec.contains('~') {
+                "sched:single-split"
+            } else if !spec.contains(',') && spec.ends_with('~') {
+                "sched:constant"
+            } else {
+                "sched:mixed"
+            }
+            .into(),
+        );
+        if input.windows(2).any(|w| w == b"\r\n") {
+            res.tags.push("has:crlf".into());
+        }
+        if std::str::from_utf8(&input).is_err() {
+            res.tags.push("has:non-utf8".into());
+        }
+        if !input.ends_with(b"\n") {
+            res.tags.push("has:no-final-newline".into());
+        }
+        for (kwd, tag) in [
+            (&b"FUNC "[..], "rec:FUNC"),
+            (b"PUBLIC ", "rec:PUBLIC"),
+            (b"STACK WIN ", "rec:STACK-WIN"),
+            (b"STACK CFI INIT ", "rec:CFI-INIT"),
+            (b"INLINE ", "rec:INLINE"),
+            (b"INLINE_ORIGIN ", "rec:INLINE_ORIGIN"),
+            (b"FILE ", "rec:FILE"),
+            (b"INFO ", "rec:INFO"),
+            (b"MODULE ", "rec:MODULE"),
+        ] {
+            if input.windows(kwd.len()).any(|w| w == kwd) {
+                res.tags.push(tag.into());
+            }
+        }
+        res
+    }
+
+    fn shrink(&self, case: &str, still_fails: &dyn Fn(&str) -> bool) -> String {
+        let Some((mut input, mut spec)) = parse_case(case) else { return case.to_string() };
+        let mut attempts = 0usize;
+        let mut try_case = |input: &[u8], spec: &str, attempts: &mut usize| -> bool {
+            *attempts += 1;
+            *attempts <= 400 && cost(input, spec) <= 40_000_000 && still_fails(&render(input, spec))
+        };
+        // simpler schedules first
+        for cand in ["whole", "1~"] {
+            if spec != cand && try_case(&input, cand, &mut attempts) {
+                spec = cand.to_string();
+                break;
+            }
+        }
+        // drop whole lines (delta debugging with shrinking granularity)
+        let mut lines: Vec<Vec<u8>> = input.split_inclusive(|b| *b == b'\n').map(|l| l.to_vec()).collect();
+        let mut chunk = (lines.len() / 2).max(1);
+        while chunk >= 1 && lines.len() > 1 {
+            let mut i = 0;
+            let mut progressed = false;
+            while i < lines.len() && lines.len() > 1 {
+                let hi = (i + chunk).min(lines.len());
+                let cand: Vec<u8> = lines[..i].iter().chain(lines[hi..].iter()).flatten().copied().collect();
+                if !cand.is_empty() && try_case(&cand, &spec, &mut attempts) {
+                    lines.drain(i..hi);
+                    progressed = true;
+                } else {
+                    i += chunk;
+                }
+            }
+            if chunk == 1 && !progressed {
+                break;
+            }
+            chunk = if chunk == 1 { 1 } else { chunk / 2 };
+            if attempts > 400 {
+                break;
+            }
+        }
+        input = lines.concat();
+        // shorten runs of padding inside long lines
+        let mut cut = input.len() / 2;
+        while cut >= 1 && attempts <= 400 {
+            let mut i = 0;
+            let mut progressed = false;
+            while i + cut <= input.len() && attempts <= 400 {
+                let cand: Vec<u8> = input[..i].iter().chain(input[i + cut..].iter()).copied().collect();
+                if !cand.is_empty() && try_case(&cand, &spec, &mut attempts) {
+                    input = cand;
+                    progressed = true;
+                } else {
+                    i += cut;
+                }
+            }
+            if cut == 1 && !progressed {
+                break;
+            }
+            cut = if cut == 1 { 1 } else { cut / 2 };
+        }
+        render(&input, &spec)
     }
 }
